@@ -185,11 +185,12 @@ def corr_exhaustive(ck: Ck) -> None:
             # quick tier: the big blocks compare normpath, unify_path and two of the six roots (rotating with the
             # combination, so every root meets every separator pattern); one combination chosen by the seed gets 5 segments
             some = [0, 1, 2 + c % 6, 2 + (c + 3) % 6]
+            # escalated quick tier (a tie is broken / _resolve_path changed): all functions, 5 segments on a third
             parts = [('alpha', n, allf if (full or n <= 3) else some) for n in range(0, 5)]
-            if full or (c - ck.seed) % 28 == 0:
+            if ck.thorough or (full and (pi + kind) % 3 == 0) or (c - ck.seed) % 28 == 0:
                 parts.append(('alpha', 5, allf))
-            # second alphabet (backslash-carrying and non-ASCII segments): <= 3 segments, 4 when escalated
-            parts += [('alpha2', n, allf if (full or n <= 2) else some) for n in range(1, (4 if full else 3) + 1)]
+            # second alphabet (backslash-carrying and non-ASCII segments): <= 3 segments, 4 in the thorough tier
+            parts += [('alpha2', n, allf if (full or n <= 2) else some) for n in range(1, (4 if ck.thorough else 3) + 1)]
             jobs.append((prefix, kind, parts))
     if ck.thorough:     # six segments for plain and alternating separators, relative and absolute
         jobs += [(prefix, kind, [('alpha', 6, allf)]) for prefix in ('', '/') for kind in (0, 2)]
